@@ -69,23 +69,44 @@ func (r *Run) pickGoroutine() *Goroutine {
 		return nil
 	}
 	var pick *Goroutine
-	if len(runnable) == 1 || !r.schedChoice {
+	curRunnable := false
+	for _, g := range runnable {
+		if g == r.cur {
+			curRunnable = true
+		}
+	}
+	switch {
+	case len(runnable) == 1 || !r.schedChoice:
 		// default policy: keep running the current goroutine, else lowest id
 		pick = runnable[0]
-		for _, g := range runnable {
-			if g == r.cur {
-				pick = g
+		if curRunnable {
+			pick = r.cur
+		}
+	case curRunnable && r.preempts >= r.maxPreempt:
+		// preemption bound reached: the running goroutine continues
+		pick = r.cur
+	default:
+		// a scheduling decision: the current goroutine first (no preemption)
+		cands := runnable
+		if curRunnable {
+			cands = []*Goroutine{r.cur}
+			for _, g := range runnable {
+				if g != r.cur {
+					cands = append(cands, g)
+				}
 			}
 		}
-	} else {
 		d := r.decide(func() []int64 {
-			as := make([]int64, len(runnable))
+			as := make([]int64, len(cands))
 			for i := range as {
 				as[i] = int64(i)
 			}
 			return as
 		})
-		pick = runnable[d]
+		pick = cands[d]
+		if curRunnable && pick != r.cur {
+			r.preempts++
+		}
 		r.res.SchedChoices++
 	}
 	if pick.blocked != nil {
